@@ -9,72 +9,90 @@
 
 pub const CAP: usize = 40;
 pub const NSTREAM: usize = 4;
-static mut BUF: [[u8; CAP]; NSTREAM] = [[0; CAP]; NSTREAM];
-static mut LEN: [usize; NSTREAM] = [0; NSTREAM];
-static mut CUR: usize = 0;
-static mut WRITES: usize = 0;
 
-pub fn reset() {
-    unsafe {
-        LEN = [0; NSTREAM];
-        CUR = 0;
-        WRITES = 0;
+/// Recorder state.  It lives in the HARNESS's stack frame (`let mut r = Rec::new(); install(&mut r)`)
+/// and is reached through one static raw pointer: keeping the byte buffers themselves in
+/// `static mut` arrays made CBMC report spurious `__rust_dealloc` layout failures inside
+/// Desc::new (measured; the same harness passes with the state in a local object).
+pub struct Rec {
+    buf: [u8; CAP * NSTREAM],
+    len: [usize; NSTREAM],
+    cur: usize,
+    writes: usize,
+}
+impl Rec {
+    pub fn new() -> Rec {
+        Rec { buf: [0; CAP * NSTREAM], len: [0; NSTREAM], cur: 0, writes: 0 }
     }
 }
-pub fn rec_write(_h: &mut fnv::FnvHasher, bytes: &[u8]) {
+static mut RECP: *mut Rec = core::ptr::null_mut();
+pub fn install(r: &mut Rec) {
+    unsafe { RECP = r as *mut Rec }
+}
+fn st() -> &'static mut Rec {
     unsafe {
-        assert!(CUR < NSTREAM, "VERIF-REC: too many hash streams");
-        let mut i = 0;
-        while i < bytes.len() {
-            assert!(LEN[CUR] < CAP, "VERIF-REC: stream buffer overflow");
-            BUF[CUR][LEN[CUR]] = bytes[i];
-            LEN[CUR] += 1;
-            i += 1;
-        }
-        WRITES += 1;
+        assert!(!RECP.is_null(), "VERIF-REC: recorder not installed");
+        &mut *RECP
     }
+}
+
+pub fn rec_write(_h: &mut fnv::FnvHasher, bytes: &[u8]) {
+    let r = st();
+    assert!(r.cur < NSTREAM, "VERIF-REC: too many hash streams");
+    let mut i = 0;
+    while i < bytes.len() {
+        assert!(r.len[r.cur] < CAP, "VERIF-REC: stream buffer overflow");
+        r.buf[r.cur * CAP + r.len[r.cur]] = bytes[i];
+        r.len[r.cur] += 1;
+        i += 1;
+    }
+    r.writes += 1;
 }
 pub fn rec_finish(_h: &fnv::FnvHasher) -> u64 {
-    unsafe {
-        CUR += 1;
-    }
+    st().cur += 1;
     kani::any()
 }
 /// number of finished streams
 pub fn streams() -> usize {
-    unsafe { CUR }
+    st().cur
 }
 pub fn writes() -> usize {
-    unsafe { WRITES }
+    st().writes
 }
 pub fn len(s: usize) -> usize {
-    unsafe { LEN[s] }
+    st().len[s]
 }
 pub fn byte(s: usize, i: usize) -> u8 {
-    unsafe { BUF[s][i] }
+    st().buf[s * CAP + i]
 }
 /// copy of a finished stream (fixed capacity, no allocation)
 pub fn snapshot(s: usize) -> ([u8; CAP], usize) {
-    unsafe { (BUF[s], LEN[s]) }
+    let r = st();
+    let mut out = [0u8; CAP];
+    let mut i = 0;
+    while i < CAP {
+        out[i] = r.buf[s * CAP + i];
+        i += 1;
+    }
+    (out, r.len[s])
 }
 /// the recorded stream `s`, from `*pos`, continues with the bytes of `piece` followed by the
 /// separator 0xFF; advances `*pos`
 pub fn expect_piece(s: usize, pos: &mut usize, piece: &[u8]) -> bool {
-    unsafe {
-        let mut i = 0;
-        while i < piece.len() {
-            if *pos >= LEN[s] || BUF[s][*pos] != piece[i] {
-                return false;
-            }
-            *pos += 1;
-            i += 1;
-        }
-        if *pos >= LEN[s] || BUF[s][*pos] != 0xFF {
+    let r = st();
+    let mut i = 0;
+    while i < piece.len() {
+        if *pos >= r.len[s] || r.buf[s * CAP + *pos] != piece[i] {
             return false;
         }
         *pos += 1;
-        true
+        i += 1;
     }
+    if *pos >= r.len[s] || r.buf[s * CAP + *pos] != 0xFF {
+        return false;
+    }
+    *pos += 1;
+    true
 }
 pub fn streams_equal(a: &([u8; CAP], usize), b: &([u8; CAP], usize)) -> bool {
     if a.1 != b.1 {
